@@ -1,5 +1,5 @@
 SPECIFICATION Spec
-CONSTANTS NA = 2 NB = 2 NV = 1 MaxLen = 4 MaxArg = 4 Prune = FALSE
+CONSTANTS NA = 1 NB = 2 NV = 1 MaxLen = 3 MaxArg = 3 Prune = TRUE
 CONSTRAINT Bound
 VIEW View
 INVARIANTS TypeOK Refines
